@@ -98,14 +98,6 @@ func (mpf Transform[T, O]) ProcessParallel(
 			// for each split, run a mapWorker
 
 			mf.mapPullProcess(output.Send().Write, opts).
-				WithErrorFilter(func(err error) error {
-					// abort: stop the other workers as
-					// well. ReadAll turns this io.EOF
-					// into nil, so the observer of the
-					// worker never sees it.
-					ft.WhenCall(ers.Is(err, io.EOF, ers.ErrCurrentOpAbort), wcancel)
-					return err
-				}).
 				ReadAll(splits[idx].Producer()).
 				Operation(func(err error) {
 					ft.WhenCall(ers.Is(err, io.EOF, ers.ErrCurrentOpAbort), wcancel)
